@@ -530,6 +530,8 @@ def run_soak(scratch, name, scn, rng):
               pushname=scn.get("pushname"), mcc=scn.get("mcc"), mnc=scn.get("mnc"), fdid=scn.get("fdid"))
     rig.corrupt = scn.get("corrupt")
     n_down, n_up = scn["n_server"], scn["n_client"]
+    if scn.get("corrupt") is not None:
+        n_down = 0          # a server whose hello failed authentication sends no frames (environment assumption)
     blocks = []
     first = threading.Event()
     rig.on_top = lambda node: first.set()
@@ -545,6 +547,8 @@ def run_soak(scratch, name, scn, rng):
         return True
 
     def sender():
+        if scn.get("corrupt") is not None:
+            return
         if not first.wait(WAIT):
             blocks.append("timeout: sender never saw a server stanza")
             return
@@ -552,7 +556,11 @@ def run_soak(scratch, name, scn, rng):
             node = m["ProtocolTreeNode"]("iq", {"id": "c%d" % i, "type": "get"}, None,
                                          rng_bytes[i] if rng_bytes[i] else None)
             client_sent.append(("c%d" % i, rng_bytes[i]))
-            rig.top.toLower(node)
+            try:
+                rig.top.toLower(node)
+            except BaseException as e:
+                blocks.append("sender raised %r" % (e,))
+                return
 
     rng_bytes = [rng.randbytes(rng.choice([0, 1, 5, 40, 300, 3000])) for _ in range(n_up)]
     sizes = [rng.choice([0, 0, 1, 10, 100, 1000, 20000]) for _ in range(n_down)]
